@@ -73,7 +73,11 @@ class TrafficRate(ExtendedCommunity):
         return value
 
     def __repr__(self) -> str:
-        return 'rate-limit:%d' % self.rate
+        rate = self.rate
+        if rate != rate or rate in (float('inf'), float('-inf')):
+            # a peer can send any 32-bit pattern: NaN and infinities have no integer rendering
+            return 'rate-limit:%s' % rate
+        return 'rate-limit:%d' % rate
 
     @classmethod
     def unpack_attribute(cls, data: Buffer, negotiated: Negotiated | None = None) -> TrafficRate:
@@ -111,7 +115,10 @@ class TrafficRatePackets(ExtendedCommunity):
         return max(value, 0.0)
 
     def __repr__(self) -> str:
-        return 'rate-limit:%d:packets' % self.rate
+        rate = self.rate
+        if rate != rate or rate == float('inf'):
+            return 'rate-limit:%s:packets' % rate
+        return 'rate-limit:%d:packets' % rate
 
     @classmethod
     def unpack_attribute(cls, data: Buffer, negotiated: Negotiated | None = None) -> TrafficRatePackets:
